@@ -118,6 +118,13 @@ struct C16 : Scenario {
 		p.tasks.push_back(t);
 		if (rng.chance(1, 2)) { static const char *cc[] = {"t", "l", "v", "tq1", "lv", "vv", "tq0", "lq"}; p.sets("clicmd", cc[rng.below(8)]); }
 		if (rng.chance(1, 5)) p.seti("lead", 1 + (int64_t) rng.below(2));
+		// something behind the end-of-archive marker: junk, or a whole second archive (same for every stream kind)
+		if (rng.chance(1, 6)) p.seti("trailer", 1 + (int64_t) rng.below(3));
+		// before anything else, the process reads another input: a self-extractor stub with its marker but nothing behind it
+		// (streams are independent objects: what one search for a header went through is no business of the next)
+		if (rng.chance(1, 4)) p.seti("stub_first", 1 + (int64_t) rng.below(3));
+		// a file called "-" in the working directory of the tool runs ("-" still means standard input)
+		if (rng.chance(1, 4)) p.seti("dash_file", 1);
 		// prefix
 		int mode = (int) (run % 8);
 		size_t plen = 0;
@@ -225,6 +232,14 @@ struct C16 : Scenario {
 		Plan bare = p;
 		bare.prefix.clear();
 		BuiltArchive a = build_archive(bare);
+		if (p.geti("trailer", 0)) {
+			int tk = (int) p.geti("trailer");
+			if (a.bytes.empty() || a.bytes.back() != 0) a.bytes.push_back(0);
+			if (tk == 1) { Fnv h; h.u64(p.run); for (int i = 0; i < 90; ++i) { h.u64((uint64_t) i); a.bytes.push_back((uint8_t) (h.h >> 13)); } }
+			else if (tk == 2) { Bytes again = a.bytes; append(a.bytes, again); }
+			else { static const char tr[] = "\0\0-lh5-\0 trailing text with a signature -lz5- in it"; append(a.bytes, std::string(tr, sizeof tr - 1)); }
+			count("kind.trailer_after_end_marker");
+		}
 		Bytes full = filler((uint64_t) p.geti("prefix_seed"), (size_t) p.geti("prefix_fill"));
 		append(full, p.prefix);
 		size_t plen = full.size();
@@ -232,6 +247,20 @@ struct C16 : Scenario {
 		Task base = p.tasks.empty() ? Task() : p.tasks[0];
 		uint64_t budget = 4096 + 8 * full.size();
 		uint64_t evals = 0;
+		if (p.geti("stub_first", 0)) {
+			Bytes stub;
+			Fnv h; h.u64(p.run);
+			for (int i = 0; i < 200; ++i) { h.u64((uint64_t) i); uint8_t b = (uint8_t) (h.h >> 17); stub.push_back(b == '-' || b == 'L' ? 'x' : b); }
+			std::string mk = p.geti("stub_first") == 2 ? "LhASFX V1.2," : "LHA-SFX";
+			memcpy(&stub[40], mk.data(), mk.size());
+			if (p.geti("stub_first") == 3) stub.resize(40 + mk.size() + 3);
+			Task st = base;
+			st.trunc = st.errat = -1; st.skipfail = -1;
+			apply_kind(st, KINDS[p.run % 6]);
+			Pass q0 = traverse(stub, st, "list", 4096 + 8 * stub.size());
+			if (!q0.H.empty()) res.fail("C16.harness", "harness", "a stub without any header yielded members");
+			count("kind.stub_without_header_read_first");
+		}
 		// reference: seekable file, no prefix
 		Task ref = base;
 		apply_kind(ref, "FILE_SEEK");
@@ -329,6 +358,7 @@ struct C16 : Scenario {
 				q.sets("srckind", kind);
 				q.seti("trunc", shifted.trunc);
 				q.seti("euid", 0);
+				if (p.geti("dash_file", 0)) { FsEnt e; e.type = 'f'; e.path = "/w/x/y/root/-"; e.data = to_bytes("not an archive, just a file whose name is a dash\n"); e.mode = 0644; q.fs.push_back(e); }
 				CliEnv env(q);
 				g_sim.budget = g_sim.steps + 200000 + 64 * full.size();
 				CliResult r = env.run(q, full);
